@@ -33,6 +33,9 @@ OPS = {
     # two boards sharing ONE caller-owned include_dirs list object (kept alive for the whole history): each has its own config.asm beside its main file
     'board1':     dict(board=1, compress=False),
     'board2':     dict(board=2, compress=True),
+    # one main file, `include lib.asm`, resolved through DIFFERENT include_dirs lists that hold different lib.asm files
+    'incX':       dict(inc='x'),
+    'incY':       dict(inc='y', compress=True),
     'path_A':     dict(path=True, main='include inc.asm\nM:\nnop\n', inc='FOO = 1\nI:\naddi x8, x8, FOO\n'),
     'path_B':     dict(path=True, main='M:\ninclude inc.asm\nadd x5, x6, x7\n', inc='FOO = 2\nI:\naddi x9, x9, FOO\n', compress=True),
 }
@@ -108,6 +111,16 @@ def run_op(name, scratch, keep):
             SHARED_INC.append(os.path.join(scratch, 'lib'))
         kw['include_dirs'] = SHARED_INC
         arg = os.path.join(scratch, 'b%d' % op['board'], 'main.asm')
+    elif op.get('inc'):
+        for d, v in (('x', 0x58), ('y', 0x59)):
+            os.makedirs(os.path.join(scratch, 'lib' + d), exist_ok=True)
+            with open(os.path.join(scratch, 'lib' + d, 'lib.asm'), 'w') as f:
+                f.write('LIBV = %d\nlib:\ndw LIBV\n' % v)
+        os.makedirs(os.path.join(scratch, 'fw'), exist_ok=True)
+        with open(os.path.join(scratch, 'fw', 'main.asm'), 'w') as f:
+            f.write('start:\ninclude lib.asm\naddi x8, x8, LIBV\n')
+        kw['include_dirs'] = [os.path.join(scratch, 'lib' + op['inc'])]
+        arg = os.path.join(scratch, 'fw', 'main.asm')
     elif op.get('path'):
         os.makedirs(scratch, exist_ok=True)
         with open(os.path.join(scratch, 'inc.asm'), 'w') as f:
